@@ -62,6 +62,7 @@ def register(PROPS):
               tiers=('thorough',)),
             D('c09_hostile', F + ['hquick=1', 'maxparts=1', 'intervals=1,2', 'anchors=4'],
               F + ['maxparts=2', 'intervals=1,2,7', 'anchors=6', '--deadline', '100'], label='fillers', variant='asan'),
+            D('c09_hostile', ['mode=selfex', '--case-timeout', '60'], label='self-excluded', variant='asan', shards=8),
             D('c09_hostile', ['mode=tzswitch', 'b2=2', '--case-timeout', '60'], ['mode=tzswitch', 'zones=all', 'y0=1971', '--case-timeout', '60'], label='tz-switch-second', variant='asan'),
             D('c09_multirule', MQ, MT, label='multirule', variant='asan'),
             D('c09_multirule', MQ, MT, label='multirule-guarded-heap'),
